@@ -94,7 +94,7 @@ def is_container(v):
 
 # =========================================================================== state
 class State:
-    __slots__ = ("frames", "cur", "heap", "nref", "pc", "old", "modstack", "pure", "entry", "ghost", "trail")
+    __slots__ = ("frames", "cur", "heap", "nref", "pc", "old", "modstack", "pure", "entry", "entry2", "iter0", "ghost", "trail")
 
     def __init__(self):
         self.frames = {}      # frame id -> (env dict, parent frame id or None, module)
@@ -106,6 +106,8 @@ class State:
         self.modstack = ()    # active frame conditions
         self.pure = False
         self.entry = None     # loop-entry state (for at_entry())
+        self.entry2 = None    # entry state of the enclosing loop (for at_entry2())
+        self.iter0 = None     # state at the start of the current iteration of the enclosing loop (for at_iter())
         self.ghost = {}
         self.trail = ()       # human-readable path description
 
@@ -114,6 +116,8 @@ class State:
         s.frames = dict(self.frames)
         s.cur, s.heap, s.nref, s.pc = self.cur, dict(self.heap), self.nref, list(self.pc)
         s.old, s.modstack, s.pure, s.entry = self.old, self.modstack, self.pure, self.entry
+        s.entry2 = self.entry2
+        s.iter0 = self.iter0
         s.ghost = dict(self.ghost)
         s.trail = self.trail
         return s
@@ -928,7 +932,22 @@ class Interp:
                     continue
                 except Exception:
                     pass
-            yield self.format_str(template, vals), s
+            # concrete pieces are folded into the template text, so f"{prefix}{s}" with prefix == "S:" and f"S:{s}"
+            # denote the same formatter
+            pieces, rest, k = [], [], 0
+            import re as _re
+            for tok in _re.split(r"(\{[^{}]*\})", template):
+                if _re.fullmatch(r"\{[^{}]*\}", tok):
+                    v = vals[k]
+                    k += 1
+                    if tok == "{}" and not isinstance(v, SV) and isinstance(v, (str, int)) and not isinstance(v, bool):
+                        pieces.append(str(v).replace("{", "{{").replace("}", "}}"))
+                    else:
+                        pieces.append(tok)
+                        rest.append(v)
+                else:
+                    pieces.append(tok)
+            yield self.format_str("".join(pieces), rest), s
 
     def format_str(self, template, vals):
         terms = [self.as_any(self.tup_to_sv(v)) if not is_container(v) else None for v in vals]
